@@ -29,6 +29,7 @@ type Params struct {
 	Start    string
 	Version  sarama.KafkaVersion
 	FetchSz  int
+	FetchMax int // Consumer.Fetch.Max
 	BPF      int
 	Buf      int
 	NParts   int
@@ -59,7 +60,7 @@ func atoi(v url.Values, k string, def int) int {
 
 func Parse(v url.Values) (*Params, error) {
 	p := &Params{N: atoi(v, "n", 3), Cuts: atoi(v, "cuts", 0), Codec: atoi(v, "codec", 1), Ctl: atoi(v, "ctl", 0) == 1,
-		Start: v.Get("start"), FetchSz: atoi(v, "fsz", 0), BPF: atoi(v, "bpf", 0), Buf: atoi(v, "buf", 0), NParts: atoi(v, "np", 1),
+		Start: v.Get("start"), FetchSz: atoi(v, "fsz", 0), FetchMax: atoi(v, "fmax", 0), BPF: atoi(v, "bpf", 0), Buf: atoi(v, "buf", 0), NParts: atoi(v, "np", 1),
 		NBrokers: atoi(v, "nb", 1), Slow: atoi(v, "slow", 0) == 1, RC: v.Get("iso") == "rc", AbOrder: atoi(v, "abo", 0), Icpt: atoi(v, "icpt", 0),
 		CloseAny: atoi(v, "closeany", 0) == 1, Move: atoi(v, "move", 0) == 1, Append: atoi(v, "app", 0) == 1, Base: int64(atoi(v, "base", 0))}
 	if p.Start == "" {
@@ -411,6 +412,9 @@ func run(c *gx.Ctl, p *Params) *gx.Outcome {
 	conf.ChannelBufferSize = p.Buf
 	if p.FetchSz > 0 {
 		conf.Consumer.Fetch.Default = int32(p.FetchSz)
+	}
+	if p.FetchMax > 0 {
+		conf.Consumer.Fetch.Max = int32(p.FetchMax)
 	}
 	if p.RC {
 		conf.Consumer.IsolationLevel = sarama.ReadCommitted
